@@ -1,6 +1,7 @@
 """Case generators.  Every random choice comes from one random.Random seeded by VERIF_SEED.
 Types and values are produced in the S-expression syntax of the line protocol (see sexp.py)."""
 import random
+from sexp import show
 
 BOUNDS = [1, 2, 3, 4, 5, 7, 8, 9, 15, 16, 17, 31, 32, 33, 63, 64, 65, 127, 128, 129, 255, 256, 257,
           511, 512, 513, 1023, 1025]
@@ -29,6 +30,43 @@ def is_fixed(t):
     raise ValueError(k)
 
 
+def fixed_len(t):
+    k = kind(t)
+    if t == 'bool':
+        return 1
+    if is_basic(t):
+        return UINT_W[t]
+    if k == 'bv':
+        return (t[1] + 7) // 8
+    if k == 'Bv':
+        return t[1]
+    if k == 'vec':
+        return t[2] * fixed_len(t[1])
+    if k == 'cont':
+        return sum(fixed_len(f) for f in t[1:])
+    raise ValueError('not fixed')
+
+
+def offset_positions(t, nbytes):
+    """byte positions of the 4-byte offsets in the top-level fixed part of an encoding of type t"""
+    k = kind(t)
+    out = []
+    if k == 'cont':
+        pos = 0
+        for f in t[1:]:
+            if is_fixed(f):
+                pos += fixed_len(f)
+            else:
+                out.append(pos)
+                pos += 4
+    elif k in ('vec', 'list') and not is_basic(t[1]) and not is_fixed(t[1]) and nbytes >= 4:
+        first = int.from_bytes(b'\0', 'little')
+        out = list(range(0, min(nbytes, 4 * 40), 4))
+    elif k == 'union':
+        pass
+    return [p for p in out if p + 4 <= nbytes]
+
+
 class Gen:
     def __init__(self, seed):
         self.rng = random.Random(seed)
@@ -44,8 +82,16 @@ class Gen:
     def basic(self):
         return self.rng.choice(BASIC)
 
+    SPECIAL = [['cont', 'u128', 'u128'], ['cont', 'u64', 'u64', 'u64', 'u64'], ['vec', ['Bv', 16], 2],
+               ['vec', ['bv', 128], 2], ['Bv', 32], ['Bv', 48], ['cont', ['Bv', 32]], ['vec', 'u64', 4],
+               ['union', 'u16', 'u16', 'u8'], ['union', 'none', ['list', 'u8', 4], ['list', 'u8', 4]],
+               ['cont', 'u256'], ['vec', 'u256', 1], ['list', ['cont', 'u8', 'u8'], 1], ['bv', 256], ['bl', 256]]
+
     def ty(self, depth, composite_only=False):
         r = self.rng
+        if depth <= 2 and r.random() < 0.08:
+            # coincidences: composite elements that are exactly one chunk / 32 bytes long, duplicate options, ...
+            return r.choice(self.SPECIAL)
         if depth <= 0 and not composite_only:
             return self.basic()
         kinds = ['bv', 'bl', 'Bv', 'Bl', 'vecb', 'listb', 'vec', 'list', 'cont', 'union']
@@ -80,6 +126,8 @@ class Gen:
         if k == 'union':
             n = r.choice([1, 2, 2, 3, 4])
             opts = [self.ty(depth - 1) for _ in range(n)]
+            if n >= 2 and r.random() < 0.2:
+                opts[r.randrange(n)] = opts[r.randrange(n)]      # the same type at two selectors
             if depth >= 2 and r.random() < 0.3:
                 # a union as an option of a union
                 inner = [self.ty(depth - 2) for _ in range(r.choice([1, 2]))]
@@ -166,6 +214,40 @@ class Gen:
             return ['u', sel, self.val(opts[sel], max(2, budget // 2))]
         raise ValueError(k)
 
+    def max_val(self, t, cap=400):
+        """the valid value with the longest encoding (all lists full, all numbers maximal), or None when
+        it would be too large to materialise"""
+        k = kind(t)
+        if t == 'bool':
+            return '1'
+        if is_basic(t):
+            return str((1 << (8 * UINT_W[t])) - 1)
+        if k in ('bv', 'bl'):
+            return 'b' + '1' * t[1] if t[1] <= 4 * cap else None
+        if k in ('Bv', 'Bl'):
+            return 'x' + 'ff' * t[1] if t[1] <= cap else None
+        if k in ('vec', 'list'):
+            if t[2] > (cap if is_basic(t[1]) else 12):
+                return None
+            e = self.max_val(t[1], max(cap // max(t[2], 1), 8))
+            return None if e is None else ['s'] + [e] * t[2]
+        if k == 'cont':
+            es = [self.max_val(f, max(cap // (len(t) - 1), 8)) for f in t[1:]]
+            return None if any(e is None for e in es) else ['s'] + es
+        if k == 'union':
+            opts = t[1:]
+            best = None
+            for i, o in enumerate(opts):
+                if o == 'none':
+                    continue
+                e = self.max_val(o, cap)
+                if e is None:
+                    return None
+                if best is None or len(show(e)) > len(show(best[2])):
+                    best = ['u', i, e]
+            return best
+        return None
+
     def zero(self, t):
         k = kind(t)
         if is_basic(t):
@@ -209,6 +291,8 @@ class Gen:
             return ['cont'] + [self.ty(depth - 1) for _ in range(r.choice([1, 2, 3, 4, 5, 8, 9]))]
         if k == 'union':
             opts = [self.ty(depth - 1) for _ in range(r.choice([1, 2, 3, 4]))]
+            if len(opts) >= 2 and r.random() < 0.3:
+                opts[r.randrange(len(opts))] = opts[r.randrange(len(opts))]
             if r.random() < 0.4:
                 opts = ['none'] + opts
             return ['union'] + opts
@@ -243,6 +327,26 @@ class Gen:
                 if op is not None:
                     ops.append(op)
                     ninv += 1
+                    continue
+            if k in ('list', 'vec') and len(cur) - 1 >= 2 and r.random() < 0.12:
+                ln = len(cur) - 1
+                if r.random() < 0.5 and not is_basic(t[1]):
+                    i, j = r.randrange(ln), r.randrange(ln)
+                    ops.append(['cpy', i, j])
+                    cur = cur[:1 + i] + [cur[1 + j]] + cur[2 + i:]
+                else:
+                    i = r.randrange(ln)
+                    kk = r.randint(1, min(3, ln - i))
+                    vals = [self.val(t[1], 4) for _ in range(kk)]
+                    ops.append(['sets', i, ['s'] + vals])
+                    cur = cur[:1 + i] + vals + cur[1 + i + kk:]
+                continue
+            if k == 'cont' and r.random() < 0.12:
+                same = [(i, j) for i in range(len(t) - 1) for j in range(len(t) - 1)
+                        if i != j and show(t[1 + i]) == show(t[1 + j]) and not is_basic(t[1 + i])]
+                if same:
+                    i, j = r.choice(same)
+                    ops.append(['cpy', i, j])
                     continue
             if k == 'list':
                 ln = len(cur) - 1
@@ -362,7 +466,7 @@ class Gen:
             c = [['chg', len(opts) + r.choice([0, 1, 200]), 'none']]
             for i, o in enumerate(opts):
                 if o == 'none':
-                    c.append(['chg', i, '5'])
+                    c.append(['chg', i, r.choice(['5', '0', '0'])])
                 elif is_basic(o) and o not in ('u256', 'bool'):
                     c.append(['chg', i, str(1 << (8 * UINT_W[o]))])
             return r.choice(c)
@@ -425,7 +529,7 @@ class Gen:
                 return ['u', len(opts) + r.choice([0, 1, 100]), 'none']
             sel = r.randrange(len(opts))
             if opts[sel] == 'none':
-                return ['u', sel, '5']
+                return ['u', sel, r.choice(['5', '0', '0', '1'])]
             bad = self.invalid_val(opts[sel], depth + 1)
             return None if bad is None else ['u', sel, bad]
         return None
@@ -442,10 +546,21 @@ class Gen:
         return out
 
     # ---------------------------------------------------------------- byte strings
-    def corrupt(self, raw):
+    def corrupt(self, raw, t=None):
         """structure-aware corruption of a valid encoding"""
         r = self.rng
         b = bytearray(raw)
+        if t is not None and r.random() < 0.25:
+            # edit one of the real offsets of the top-level fixed part
+            ps = offset_positions(t, len(b))
+            if ps:
+                i = r.choice(ps[:1] * 3 + ps)
+                x = int.from_bytes(b[i:i + 4], 'little')
+                x = (x + r.choice([1, -1, 1, -1, 2, 4, -4, 8, 256, 1 << 31])) % (1 << 32)
+                b[i:i + 4] = x.to_bytes(4, 'little')
+                if r.random() < 0.3:
+                    b += bytes(r.getrandbits(8) for _ in range(r.choice([1, 1, 2, 4])))
+                return bytes(b)
         m = r.choice(['trunc', 'extend', 'flip', 'offset', 'insert', 'lastbyte', 'zero', 'byte', 'none', 'dup', 'zeroword', 'zeroword', 'zerofirst'])
         if m == 'trunc' and b:
             del b[r.randrange(len(b)):]
@@ -711,7 +826,8 @@ class StoreGen:
                 ct, cv = self.child_tv(self.views[i], key)
                 self.views[i]['kids'] = True
                 self.views.append(dict(t=ct, v=cv, hook=(i, key), kids=False))
-                ops.append(['child', i, key])
+                kt = kind(self.views[i]['t'])
+                ops.append(['childs' if kt in ('vec', 'list') and r.random() < 0.35 else 'child', i, key])
             elif c < 0.33 and len(self.views) < 9:
                 i = r.randrange(len(self.views))
                 vw = self.views[i]
